@@ -29,6 +29,9 @@ HeaderAgreement == IsHeight =>
    /\ \A a, b \in {h \in Done : h.path # "F"} : a.hash = b.hash /\ Roots(a) = Roots(b)
    /\ \A a, b \in {h \in H : h.digest # ""} : a.digest = b.digest
    /\ \A a, b \in {h \in H : h.results # ""} : a.results = b.results
+\* no path that executes the block arrives at another header / other results than the certified ones (also the replica
+\* validating the proposal and the node replaying the archive during sync: their OTHER refusals belong to Portable)
+ExecAgreement == IsHeight => \A h \in H : ~h.mismatch
 NoPathError == IsHeight => \A h \in H : h.path \in {"V", "sync-from-archive", "F"} \/ h.err = ""
 Atomic ==
    /\ cur.kind = "height" => \A f \in {h \in Done : h.path = "F"} : \A p \in {h \in Done : h.path = "P"} : Roots(f) = Roots(p)
@@ -37,6 +40,6 @@ Atomic ==
 Portable ==
    /\ cur.kind = "height" => \A v \in {h \in H : h.path = "V"} : v.err = ""
    /\ cur.kind = "sync" => \A e \in {h \in H : h.path \in {"sync-from-archive", "archive"}} : e.err = ""
-Preds == [HeaderAgreement |-> HeaderAgreement, NoPathError |-> NoPathError, Atomic |-> Atomic, Portable |-> Portable]
+Preds == [HeaderAgreement |-> HeaderAgreement, ExecAgreement |-> ExecAgreement, NoPathError |-> NoPathError, Atomic |-> Atomic, Portable |-> Portable]
 Report == (\A p \in DOMAIN Preds : Preds[p]) \/ PrintT(<<"VIOL", l - 1, Preds>>)
 =============================================================================
